@@ -419,6 +419,30 @@ def attribute(mod, finding: dict, spec, failure: dict) -> bool:
 
 
 # --------------------------------------------------------------------------
+# Regression tier: the shrunk inputs that exposed the defects fixed in /repo
+# (replays/regress/<prop>-*.json, produced by running the check against the
+# revert of each fix) are re-judged on every run, whatever the seed.
+# --------------------------------------------------------------------------
+def regression_tier(mod, prop_id: str) -> dict:
+    import glob
+
+    rec = Recorder()
+    files = sorted(glob.glob(os.path.join(ROOT, "replays", "regress", f"{prop_id}-*.json")))
+    for path in files:
+        try:
+            with open(path) as f:
+                spec = json.load(f)["spec"]
+        except Exception as e:
+            rec.harness_errors.append(f"regression replay {path}: {e!r}")
+            continue
+        rec.run(mod, spec)
+    rec.notes["regression_replays"] = len(files)
+    if files:
+        rec.exhaustive_parts.append(f"regression tier: {len(files)} saved inputs of fixed defects (replays/regress)")
+    return rec.to_dict()
+
+
+# --------------------------------------------------------------------------
 # Coverage-guided stage (atheris / libFuzzer), see vp/fuzz.py
 # --------------------------------------------------------------------------
 FUZZ_DEFAULT = {"quick": 0, "thorough": 12_000}   # libFuzzer -runs per shard
@@ -488,6 +512,7 @@ def run_property(prop_id: str, tier: str, seed: int, jobs: int) -> int:
         mod.calibrate()
 
     parts = run_workers(prop_id, tier, seed, jobs)
+    parts.append(regression_tier(mod, prop_id))
     if hasattr(mod, "extra"):
         parts.extend(mod.extra(tier, seed, jobs))
     parts.extend(fuzz_stage(mod, prop_id, tier, seed, jobs))
